@@ -321,8 +321,8 @@ package stream
 //@ params innerVbId
 //@ props C15 C08
 //@ requires s != nil && s.offsets != nil && s.observers != nil && s.client != nil && openWg != nil
-//@ ensures.ok[C15] dcalls("stream.(*stream).openStream") == 1 && dret("stream.(*stream).openStream", 0, 0) == nil && darg("stream.(*stream).openStream", 0, vbID) == innerVbId
-//@ onpanic.failed[C15] dcalls("stream.(*stream).openStream") == 1 && dret("stream.(*stream).openStream", 0, 0) != nil
+//@ ensures.ok[C15,C08] dcalls("stream.(*stream).openStream") == 1 && dret("stream.(*stream).openStream", 0, 0) == nil && darg("stream.(*stream).openStream", 0, vbID) == innerVbId
+//@ onpanic.failed[C15,C08] dcalls("stream.(*stream).openStream") == 1 && dret("stream.(*stream).openStream", 0, 0) != nil
 //@ modifies calls("stream.(*stream).openStream"), calls(couchbase.Client.OpenStream)
 
 //@ func (*stream).openAllStreams
@@ -444,6 +444,7 @@ package stream
 // being opened is then subtracted from the full count, not overwritten by it
 //@ rely "stream.(*stream).openAllStreams" presnap opening
 //@ ensures.counted_before_the_first_request[C16,C12] at(opening, atomicval(s.activeStreams)) == len(ids)
+//@ ensures.checkpoint_for_this_assignment[C02,C11] typeis(s.checkpoint, "*checkpoint") && fresh(as(s.checkpoint, "*checkpoint")) && as(s.checkpoint, "*checkpoint").vbIds == ids && as(s.checkpoint, "*checkpoint").metadata == s.metadata && as(s.checkpoint, "*checkpoint").client == s.client && arg(stream.Checkpoint.Load, 0, recv) == s.checkpoint
 //@ ensures.resume[C02,C11] calls(stream.Checkpoint.Load) == 1 && s.offsets == ret(stream.Checkpoint.Load, 0, 0) && s.dirtyOffsets == ret(stream.Checkpoint.Load, 0, 1) && s.anyDirtyOffset == ret(stream.Checkpoint.Load, 0, 2)
 //@ ensures.observers[C03,C12] s.observers != nil && fresh(s.observers) && forall vb uint16 :: has(s.offsets, vb) ==> has(s.observers, vb) && s.observers[vb] != nil
 //@ ensures.streams[C12,C15] dcalls("stream.(*stream).openAllStreams") == 1 && darg("stream.(*stream).openAllStreams", 0, vbIDs) == ids
